@@ -202,8 +202,29 @@ fn check_fixpoint_text(ctx: &mut Ctx, body: &Ast, an: &Analysis, gfp: bool, spel
     }
 }
 
+/// list-versus-list comparisons: the iterate must be substituted in BOTH lists
+fn cv_alpha() -> Alpha {
+    let s = |x: &str| x.to_string();
+    Alpha {
+        leaves: vec![Ast::var("X"), Ast::var("a"), Ast::var("b"), Ast::True],
+        not: true,
+        bins: vec![Bin::And, Bin::Or],
+        ite: false,
+        quants: vec![(true, vec![s("a")])],
+        fps: vec![],
+        cmps: vec![Cmp::AtMost, Cmp::AtLeast, Cmp::LessThan],
+        nums: vec![],
+        cv: true,
+        max_list: 3,
+    }
+}
+
 fn body_sweep(ctx: &mut Ctx, third: bool, upto: usize, idx: &mut u64) {
-    let mut g = Gen::new(body_alpha(third));
+    body_sweep_alpha(ctx, body_alpha(third), upto, idx)
+}
+
+fn body_sweep_alpha(ctx: &mut Ctx, alpha: Alpha, upto: usize, idx: &mut u64) {
+    let mut g = Gen::new(alpha);
     for size in 1..=upto {
         let mut todo = vec![];
         let mut flush = |ctx: &mut Ctx, todo: &mut Vec<(Ast, u64)>| {
@@ -370,6 +391,7 @@ fn run(ctx: &mut Ctx) {
     let th = ctx.thorough();
     body_sweep(ctx, false, if th { 6 } else { 5 }, &mut idx);
     body_sweep(ctx, true, if th { 5 } else { 4 }, &mut idx);
+    body_sweep_alpha(ctx, cv_alpha(), if th { 5 } else { 4 }, &mut idx);
     for n in 1..=65usize {
         idx += 1;
         if ctx.mine(idx) {
